@@ -203,6 +203,21 @@ CLAIMED = {
             '(vf/props/c18.py); matplotlib colour conversion for comparing '
             'colours.',
             'DESIGN.md section 5, C18'),
+    'C09': ('exploration',
+            'Hypothesis round-trip / fixed-point tests of DS9 serialise->parse '
+            'over generated region lists with controlled metadata sharing; '
+            'metamorphic skip relation; determinism across child interpreters '
+            'with different PYTHONHASHSEED',
+            'Random search over the ten DS9 shapes x six frames x precision '
+            '1..12 x lists of 1..8 x the DS9 metadata/visual vocabulary; every '
+            'number compared to half a unit of the requested precision in the '
+            'serialised unit; parse(ser(P1)) == P1 with the library\'s full '
+            'equality; unsupported members must leave the text of the others '
+            'unchanged; three fresh interpreters per sampled list.',
+            'astropy number formatting (positional vs scientific) is modelled '
+            'in the tolerance; sizes are raised to the precondition of the '
+            'property by construction.',
+            'DESIGN.md section 5, C09'),
 }
 
 PENDING_REASON = ('check designed (DESIGN.md section 5) but not yet built and '
